@@ -263,6 +263,7 @@ func genC05Base(t *rapid.T) *FileCase {
 	}
 	cfg := DefaultFileCfg()
 	cfg.CF.MaxDepth = pick(4, 5)
+	cfg.CF.CondGoto = true
 	if rapid.Bool().Draw(t, "scriptsonly") {
 		cfg.Texts, cfg.Movements, cfg.Marts, cfg.Raws = false, false, false, false
 	}
